@@ -469,7 +469,7 @@ def random_edits(nb, rnd, n, ops=None):
     return nb
 
 
-def triples(seed, count, maxcells=3, minors=(5, 4, 2), max_edits=2, ops=None):
+def triples(seed, count, maxcells=3, minors=(5, 4, 2), max_edits=2, ops=None, tail=False):
     """(base, local, remote) with local/remote derived from base by random edit scripts."""
     rnd = random.Random(seed)
     bases = base_notebooks(maxcells, minors)
@@ -549,6 +549,35 @@ def triples(seed, count, maxcells=3, minors=(5, 4, 2), max_edits=2, ops=None):
         l = random_edits(common, rnd, rnd.randint(0, max_edits), ops)
         r = random_edits(common, rnd, rnd.randint(0, max_edits), ops)
         yield copy.deepcopy(b), l, r
+    if ops is None and tail and count >= 20:
+        # after the drawn sample (indices count, count+1, ...; the draws above are left as they are): one side converts a code cell to
+        # markdown/raw keeping its id, as the Jupyter UI does, while the other side only re-runs it
+        rnd2 = random.Random(seed * 31 + 7)
+        for b in rnd2.sample(bases, min(len(bases), 12)):
+            t = retype_vs_rerun_triple(b, rnd2)
+            if t is not None:
+                yield t
+
+
+def retype_vs_rerun_triple(b, rnd):
+    cand = [i for i, c in enumerate(b['cells']) if c['cell_type'] == 'code']
+    if not cand:
+        return None
+    i = rnd.choice(cand)
+    t = copy.deepcopy(b)
+    c = t['cells'][i]
+    c['execution_count'] = (c['execution_count'] or 0) + rnd.randint(1, 5)
+    for o in c['outputs']:
+        if o['output_type'] == 'execute_result':
+            o['execution_count'] = c['execution_count']
+    d = copy.deepcopy(b)
+    old = d['cells'][i]
+    new = (md_cell if rnd.random() < 0.5 else raw_cell)(old['source'])
+    if 'id' in old:
+        new['id'] = old['id']
+    d['cells'][i] = nbformat.from_dict(new)
+    l, r = (t, d) if rnd.random() < 0.5 else (d, t)
+    return copy.deepcopy(b), l, r
 
 
 def concurrent_insert_triple(b, rnd):
